@@ -880,3 +880,15 @@ Theorem C18_checked_fresh_answer_is_built_after_any_history : forall D, wf_keys 
   snd (o_cache_schema D (size D) s m) = Ok r.
 Proof. exact o_checked_fresh_answer_is_built. Qed.
 Print Assumptions C18_checked_fresh_answer_is_built_after_any_history.
+
+(* file order and the repaired reader (wf_keys): accepted in one order => the build succeeds in every other
+   order; two accepted orders give sets that agree on every message and enum both hold.  NOT proved: that the
+   name check passes in the other order too (same missing lemma as for the cache) *)
+Theorem C18_checked_reader_file_order : forall D, wf_keys D -> forall fs fs',
+  Permutation fs fs' ->
+  (forall S ow, o_reflect_checked D fs = Ok (S, ow) -> exists S' ow', o_reflect D fs' = Ok (S', ow')) /\
+  (forall S ow S' ow', o_reflect_checked D fs = Ok (S, ow) -> o_reflect_checked D fs' = Ok (S', ow') ->
+     (forall m r r', In m (d_msgs D) -> lookup S (msg_key m) = Some (Linked r) -> lookup S' (msg_key m) = Some (Linked r') -> r = r') /\
+     (forall e r r', In e (d_enums D) -> lookup S (enum_key e) = Some (Linked r) -> lookup S' (enum_key e) = Some (Linked r') -> r = r')).
+Proof. exact o_reflect_checked_order. Qed.
+Print Assumptions C18_checked_reader_file_order.
